@@ -122,7 +122,7 @@ def run(ctx):
         for first in lat:
             jobs.append((job_family, (n, first)))
     for k in range(32):
-        jobs.append((job_random, (ctx.seed * 41 + k, 60 if quick else 1500)))
+        jobs.append((job_random, (ctx.seed * 41 + k, 60 if quick else 4000)))
     events = []
     with mp.get_context("fork").Pool(16, initializer=core._pool_init, initargs=(None,)) as pool:
         res = [pool.apply_async(f, (a,)) for f, a in jobs]
